@@ -15,6 +15,7 @@ import os
 import random
 import re
 import resource
+import signal
 import subprocess
 
 from . import core, inproc, mutate
@@ -187,6 +188,89 @@ def classify(r):
     return None
 
 
+def setlimits_probe():
+    try:
+        resource.setrlimit(resource.RLIMIT_CPU, (100, 101))
+        resource.setrlimit(resource.RLIMIT_FSIZE, (1 << 26, 1 << 26))
+        resource.setrlimit(resource.RLIMIT_AS, (4 << 30, 4 << 30))
+        resource.setrlimit(resource.RLIMIT_CORE, (0, 0))
+        os.setgroups([])
+        os.setgid(65534)
+        os.setuid(65534)
+    except OSError:
+        pass
+
+
+def hang_probe(script, window=25.0):
+    """brush did not finish a script bash finishes: is the *shell* stuck, or is it busily running the script's own loop (a semantic
+    difference, some other property's business)? Re-run with the hook event log on: every command the interpreter starts appends
+    a `pipeline.stage_spawned` event. No new event and no output during `window` seconds twice in a row, while the process is
+    still there = the shell itself is stuck (busy: internal loop; asleep: deadlock). Returns (verdict, detail)."""
+    import time
+    d = core.new_scratch("hp01")
+    os.chmod(d, 0o777)
+    path = os.path.join(d, ".vscript.sh")
+    with open(path, "w", encoding="utf-8", errors="surrogateescape") as f:
+        f.write(script)
+    os.chmod(path, 0o644)
+    evlog = os.path.join(d, "events")
+    open(evlog, "w").close()
+    os.chmod(evlog, 0o666)
+    env = core.base_env(d)
+    env["HOME"] = d
+    env["BRUSH_VERIF_LOG"] = evlog
+    outp = os.path.join(d, "out")
+    with open(outp, "wb") as out:
+        p = subprocess.Popen(core.shell_argv("brush") + ["./.vscript.sh"], cwd=d, env=env, stdin=subprocess.DEVNULL, stdout=out, stderr=subprocess.STDOUT,
+                             start_new_session=True, preexec_fn=setlimits_probe)
+    verdict, detail = None, {}
+    last = (-1, -1)
+    quiet = 0
+    t0 = time.time()
+    while True:
+        try:
+            p.wait(timeout=window)
+            if p.returncode in (-24, -25):        # our own CPU / file-size limits (the event log grew to 64 MB): it was running commands
+                verdict, detail = "looping", {"ended_by_rlimit": -p.returncode, "events_bytes": os.path.getsize(evlog)}
+            else:
+                with open(outp, "rb") as f:
+                    f.seek(max(0, os.path.getsize(outp) - 6000))
+                    tail = f.read()
+                verdict, detail = "finished", {"rc": p.returncode, "seconds": round(time.time() - t0, 1), "tail": tail}
+            break
+        except subprocess.TimeoutExpired:
+            pass
+        cur = (os.path.getsize(evlog), os.path.getsize(outp))
+        if cur == last:
+            quiet += 1
+        else:
+            quiet = 0
+        last = cur
+        if quiet >= 2:
+            cpu = 0
+            try:
+                with open("/proc/%d/stat" % p.pid) as f:
+                    parts = f.read().rsplit(")", 1)[1].split()
+                cpu = int(parts[11]) + int(parts[12])
+            except (OSError, IndexError, ValueError):
+                pass
+            kids = subprocess.run(["pgrep", "-P", str(p.pid)], capture_output=True, text=True).stdout.split()
+            verdict = "stuck"
+            detail = {"events_bytes": cur[0], "output_bytes": cur[1], "cpu_ticks": cpu, "live_children": len(kids), "seconds": round(time.time() - t0, 1),
+                      "state": "busy" if cpu > 100 * (time.time() - t0) * 0.5 else "asleep"}
+            break
+        if time.time() - t0 > 8 * window:
+            verdict, detail = "looping", {"events_bytes": cur[0], "output_bytes": cur[1]}
+            break
+    try:
+        os.killpg(p.pid, signal.SIGKILL)
+    except OSError:
+        pass
+    p.wait()
+    core.rmtree(d)
+    return verdict, detail
+
+
 FUNC_HEADER = re.compile(r"(?:^|[\n;&|({]|\bfunction)\s*([A-Za-z_][A-Za-z0-9_]*)\s*\(\s*\)")
 
 
@@ -250,8 +334,8 @@ def judge_script(run, item, binary=None, r=None):
         if rh.timed_out or rh.sig == 24:
             run.count("both_shells_do_not_terminate")
             return
-        run.count("brush_slow_or_looping_where_bash_finishes")
-        run.slow.append(script[:300])
+        run.count("brush_exceeded_the_bound_where_bash_finishes")
+        run.slow.append((origin, script))
         return
     site = kind
     if kind in ("stack-overflow", "signal:11"):
@@ -289,6 +373,44 @@ def minimise(script, kind, binary):
             if cand.strip() and classify(run_hostile("brush", cand, binary)) == kind:
                 return minimise(cand, kind, binary) if len(lines) < 40 else cand
     return script
+
+
+def judge_slow(run):
+    """Scripts brush did not finish within the bound although bash did: stuck shell (violation) or busy script / merely slow?"""
+    cands = run.slow[:200]
+    run.count("hang_probes", len(cands))
+
+    def one(item):
+        origin, script = item
+        if re.search(r"\bcoproc\b", script):
+            return item, ("coproc", {})
+        return item, hang_probe(script)
+
+    for (origin, script), (verdict, detail) in core.pmap(one, cands):
+        if verdict == "coproc":
+            kf = next((e for e in run.findings.all_entries() if e["id"] == "C01-F1"), None)
+            if kf:
+                run.findings.report(kf)
+            run.count("known:C01-F1")
+        elif verdict == "finished":
+            kind = classify(core.Res(detail["rc"], b"", detail["tail"], False, detail["seconds"]))
+            if kind:        # it did end - by crashing (e.g. unbounded growth inside the shell until the address-space limit)
+                run.violation("C01|%s|after-%ds" % (kind, 10 * int(detail["seconds"] / 10)),
+                              {"kind": "crash-on-longer-bound", "crash": kind, "origin": origin, "script": script[:3000], "rc": detail["rc"],
+                               "stderr": core.txt(detail["tail"][-800:]), "seconds": detail["seconds"]})
+            else:
+                run.count("slow_but_finished_within_the_longer_bound")
+        elif verdict == "looping":
+            run.count("script_level_loop_where_bash_finishes")        # commands keep being executed: a semantic difference, not a stuck shell
+        else:
+            sig = "hang:%s" % detail.get("state")
+            kf = run.findings.match_signature(sig)
+            if kf:
+                run.findings.report(kf)
+                continue
+            run.violation("C01|%s|%s" % (sig, script[:40]), {"kind": "hang", "origin": origin, "script": script[:3000], "probe": detail,
+                                                               "what": "no command started and no output for 50 s while bash finishes the script"})
+    run.slow = [s[:300] for _, s in run.slow[:3]]
 
 
 def inproc_layer(run, lines):
@@ -374,6 +496,7 @@ def run(run):
     run.max_violations = 25
     for it, r in zip(items, pool_map(pool, [s for _, s in items])):
         judge_script(run, it, r=r)
+    judge_slow(run)
     rng = run.rng("lines")
     lines = mutate.corpus_lines(rng, int((1200 if quick else 40000) * scale))
     lines += [s for o, s in items if o in ("boundary", "ladder") and "\n" not in s][: int((800 if quick else 20000) * scale)]
@@ -398,7 +521,7 @@ def canaries(run):
         r = run_hostile("brush", e["script"])
         run.evaluations += 1
         kind = classify(r)
-        hung = r.timed_out
+        hung = r.timed_out or r.sig == 24        # (24: our own CPU limit)
         if e.get("status") == "open":
             want = e.get("crash")
             if (kind and kind == want) or (want == "hang" and hung):
